@@ -516,6 +516,43 @@ func scenarios(thorough bool) []scenario {
 		})
 	}
 
+	// ---- tiny targets (shorter than the entry jump) and a target the library itself may call ----
+	for mi, mock := range []string{"return", "apply"} {
+		mock := mock
+		add(fmt.Sprintf("Tiny/%d-%s", mi, mock), func(tr *transcript) {
+			b := mocker.Create()
+			defer b.Reset()
+			tr.do("configure", func() string {
+				if mock == "return" {
+					b.Func(t.Tiny).Return(5)
+					b.Struct(&t.T{}).Method("Getter").Return(6)
+				} else {
+					b.Func(t.Tiny).Apply(func() int { tr.add("  cb Tiny"); return 7 })
+					b.Struct(&t.T{}).Method("Getter").Apply(func(r *t.T) int { tr.add("  cb Getter K=%d", r.K); return 8 })
+				}
+				return "ok"
+			})
+			tr.do("Tiny()", func() string { return fmt.Sprint(t.Tiny()) })
+			tr.do("Getter()", func() string { return fmt.Sprint((&t.T{K: 3}).Getter()) })
+		})
+	}
+	add("Getenv/sequence", func(tr *transcript) {
+		b := mocker.Create()
+		defer b.Reset()
+		b.Func(os.Getenv).Return("first").AndReturn("second").AndReturn("third")
+		for i := 0; i < 4; i++ {
+			tr.do("os.Getenv(HOME)", func() string { return os.Getenv("HOME") })
+		}
+	})
+	add("Getenv/apply", func(tr *transcript) {
+		b := mocker.Create()
+		defer b.Reset()
+		b.Func(os.Getenv).Apply(func(key string) string { tr.add("  cb Getenv(%q)", key); return "v:" + key })
+		tr.do("os.Getenv(A)", func() string { return os.Getenv("A") })
+		tr.do("F while Getenv is mocked", func() string { return fmt.Sprint(t.F(1, "a")) })
+		tr.do("os.Getenv(B)", func() string { return os.Getenv("B") })
+	})
+
 	// ---- time.Now is what the logger itself calls ----
 	add("TimeNow/return", func(tr *transcript) {
 		b := mocker.Create()
